@@ -294,7 +294,7 @@ EV_GROUPS = {
     'CW': ['ids', 'wire', 'md', 'pay', 'ctx'], 'SW': ['wire', 'status', 'md', 'pay'],
     'HStart': ['pay', 'md'], 'HRecvRet': ['pay', 'ctx'], 'HSendRet': ['ctx'], 'HSetHdr': ['md'],
     'HSendHdrRet': ['md'], 'HCtxDone': ['ctx'], 'URet': ['status', 'pay'], 'SOpenRet': ['fault'],
-    'SSendRet': ['ctx', 'fault'], 'SCloseRet': ['fault'], 'SRecvRet': ['pay', 'status', 'ctx'],
+    'SSendRet': ['ctx', 'fault'], 'SSendBadRet': ['fault'], 'SCloseRet': ['fault'], 'SRecvRet': ['pay', 'status', 'ctx'],
     'SHdrRet': ['md'], 'STrl': ['md'], 'ServeRet': ['serve'], 'Hk': ['reg'],
     'Quiesce': ['pend', 'ctx', 'robust', 'wire', 'serve', 'reg', 'letgo'],
 }
